@@ -1,3 +1,5 @@
 import PfVerif.Audit.Tool
 import PfVerif.Props.C06
+import PfVerif.Lemmas.C06Hedger
 #audit_module PfVerif.Props.C06
+#audit_module_ns PfVerif.Lemmas.C06Hedger PfVerif.C06Hedger
